@@ -166,15 +166,29 @@ func knownExportlessGraph() *ggraph {
 	return finish(g)
 }
 
+// fifth known finding: with minify-syntax an unused named import of a missing export is dropped silently
+func knownUnusedMissingGraph() *ggraph {
+	e, m := esm(0, "e.mjs"), esm(1, "m1.mjs")
+	m.locals = []localExport{{"x", "var"}}
+	e.imports = []gimport{{1, "named", "z", "ez"}}
+	e.unusedImports = true
+	e.throws = true // no reads of the binding at all
+	g := &ggraph{mods: []*gmod{e, m}, shape: "known", rootType: "module", subType: "module", allowKnown: true, hasThrow: true}
+	return finish(g)
+}
+
 func knownFindings(st *Stats) {
+	plain := buildCfg{"esm", "node", false}
 	for _, k := range []struct {
 		g        *ggraph
 		scenario string
-	}{{knownAliasGraph(), "known-alias-two-names-star-ambiguity"}, {knownStarCycleGraph(), "known-star-reexport-cycle-ambiguity"},
-		{knownExportlessGraph(), "known-import-from-exportless-module-accepted"}} {
+		cfg      buildCfg
+	}{{knownAliasGraph(), "known-alias-two-names-star-ambiguity", plain}, {knownStarCycleGraph(), "known-star-reexport-cycle-ambiguity", plain},
+		{knownExportlessGraph(), "known-import-from-exportless-module-accepted", plain},
+		{knownUnusedMissingGraph(), "known-minify-drops-unused-missing-import", buildCfg{"esm", "node", true}}} {
 		desc := k.g.describe()
 		desc["scenario"] = k.scenario
-		outs := runJobs([]glueJob{{k.g.render(), "e.mjs", "e.mjs", true, []buildCfg{{"esm", "node", false}}, desc, "known"}})
+		outs := runJobs([]glueJob{{k.g.render(), "e.mjs", "e.mjs", true, []buildCfg{k.cfg}, desc, "known"}})
 		for _, o := range outs[0] {
 			if o.kind == "fail" {
 				st.Note("known:"+k.scenario, "1", true)
